@@ -93,6 +93,10 @@ func Trim(input string, maxPrintableLength int) string {
 		return input
 	}
 
+	if maxPrintableLength < 0 {
+		maxPrintableLength = 0
+	}
+
 	// Find all escape sequences in the input
 	escapeIndices := re.FindAllStringIndex(input, -1)
 
@@ -107,6 +111,10 @@ func Trim(input string, maxPrintableLength int) string {
 	}
 
 	// Determine the end index for limiting printable content
+	if maxPrintableLength > len(input) {
+		maxPrintableLength = len(input)
+	}
+
 	return input[:maxPrintableLength]
 }
 
